@@ -103,4 +103,38 @@ def exec (op : Op) (s : State) (ctl : Bytes) (names : List Bytes) : Outcome :=
     | (s'', true) => ⟨s'', true, op ≠ .remove⟩
     | (s'', false) => ⟨s'', false, false⟩
 
+/-! ### one handle used for several operations
+
+A handle (`*DSC` / `*Changes`) is a value the caller keeps: after a successful `Copy` or
+`Move` its `Filename` points into the destination and the next operation starts from
+there.  `World` has any number of directories; `here` is the one holding the handle's
+control file. -/
+
+structure World where
+  dirs : List Dir
+  here : Nat
+  deriving DecidableEq, Repr
+
+/-- one operation of the handle towards directory `target` (ignored by `remove`).  An
+    operation onto the handle's own directory is not modelled (`none`). -/
+def execW (op : Op) (w : World) (target : Nat) (ctl : Bytes) (names : List Bytes) : Option (World × Bool) :=
+  if target = w.here then none else
+  match w.dirs[w.here]?, w.dirs[target]? with
+  | some s, some d =>
+    let o := exec op ⟨s, .dir, d, false⟩ ctl names
+    some (⟨(w.dirs.set w.here o.state.src).set target o.state.dest,
+           if o.handleDest then target else w.here⟩, o.ok)
+  | _, _ => none
+
+/-- a sequence of operations on the same handle; the results of the individual calls -/
+def runW (ctl : Bytes) (names : List Bytes) : World → List (Op × Nat) → Option (World × List Bool)
+  | w, [] => some (w, [])
+  | w, (op, t) :: rest =>
+    match execW op w t ctl names with
+    | none => none
+    | some (w', ok) =>
+      match runW ctl names w' rest with
+      | none => none
+      | some (w'', oks) => some (w'', ok :: oks)
+
 end GoDebian.Upload
